@@ -493,6 +493,12 @@ func normExpr(pkg *packages.Package, e ast.Expr) string {
 				}
 				return "‹" + types.TypeString(obj.Type(), func(*types.Package) string { return "" }) + "›"
 			}
+			// a named integer constant reads as its value (packet[connackReturnIndex] is packet[3])
+			if k, ok := pkg.TypesInfo.Uses[x].(*types.Const); ok && k.Pkg() == pkg.Types {
+				if b, isB := k.Type().Underlying().(*types.Basic); isB && b.Info()&types.IsInteger != 0 {
+					return k.Val().ExactString()
+				}
+			}
 			return x.Name
 		case *ast.SelectorExpr:
 			return render(x.X) + "." + x.Sel.Name
